@@ -38,10 +38,11 @@ static void chk_count (SNDFILE *s, const char *what, sf_count_t r, sf_count_t re
 }
 
 /* one run of a workload; returns the number of callbacks performed */
+static long g_fault2 ; static int g_kind2 ;	/* second single-shot fault (thorough tier), 0 = none */
 static long run_workload (int format, int ch, int wl, int t, const MEMF *base, long fault_at, int kind, int persist)
 {	SF_INFO si ; SNDFILE *s ; size_t h0 ; int f0 ; SF_VERIF_STATE st ; long calls ; int ts = vh_tsize [t], i ; static double buf [4096] ; sf_count_t r ;
 	memset (&si, 0, sizeof (si)) ;
-	store.pos = 0 ; store.ncalls = 0 ; store.fired = 0 ; store.fault_at = fault_at ; store.fault_kind = kind ; store.fault_persist = persist ; store.budget = 300000 ;	/* the fault-free workloads need a few hundred callbacks */
+	store.pos = 0 ; store.ncalls = 0 ; store.fired = 0 ; store.fault_at = fault_at ; store.fault_kind = kind ; store.fault_persist = persist ; store.fault_at2 = g_fault2 ; store.fault_kind2 = g_kind2 ; store.budget = 300000 ;	/* the fault-free workloads need a few hundred callbacks */
 	if (wl == WL_WRITE) { store.len = 0 ; si.format = format ; si.channels = ch ; si.samplerate = 8000 ; }
 	else { store.len = base->len ; memcpy (store.d, base->d, base->len) ; if ((format & SF_FORMAT_TYPEMASK) == SF_FORMAT_RAW) { si.format = format ; si.channels = ch ; si.samplerate = 8000 ; } }
 	for (i = 0 ; i < 4096 ; i++) switch (t) { case T_SHORT : ((short *) buf) [i] = (short) (i * 13) ; break ; case T_INT : ((int *) buf) [i] = i * 500000 ; break ; case T_FLOAT : ((float *) buf) [i] = 0.001f * (i % 900) ; break ; default : buf [i] = 0.001 * (i % 900) ; }
@@ -142,7 +143,9 @@ int main (int argc, char **argv)
 			for (i = 0 ; i < nm ; i++) if (seen_maj [i] == maj) newm = 0 ; for (i = 0 ; i < ns ; i++) if (seen_sub [i] == sub) news = 0 ;
 			if (!newm && !news) continue ; if (newm) seen_maj [nm++] = maj ; if (news) seen_sub [ns++] = sub ;
 			}
-		c = vh_accepts (format, 2, 8000) ? 2 : 1 ;
+		for (c = (vh_thorough && vh_accepts (format, 1, 8000) && vh_accepts (format, 2, 8000)) ? 1 : (vh_accepts (format, 2, 8000) ? 2 : 1) ; c <= 2 ; c++)		/* thorough: mono and stereo */
+		{
+		if (!vh_accepts (format, c, 8000)) continue ;
 		memset (&base, 0, sizeof (base)) ;
 		for (wl = 0 ; wl < 3 ; wl++) for (t = 0 ; t < T_N ; t++)
 		{	int kind, persist ;
@@ -160,14 +163,26 @@ int main (int argc, char **argv)
 				{	char *at = strstr (vh_case_desc, " @") ; if (at) *at = 0 ;
 					snprintf (vh_case_desc + strlen (vh_case_desc), sizeof (vh_case_desc) - strlen (vh_case_desc), " @%ld", i) ;
 					alarm (vh_case_secs) ;
-					vh_distinct (vh_fnv (0, &format, 4) ^ ((uint64_t) wl << 40) ^ ((uint64_t) t << 42) ^ ((uint64_t) i << 16) ^ ((uint64_t) kind << 4) ^ (uint64_t) persist) ;
+					vh_distinct (vh_fnv (0, &format, 4) ^ ((uint64_t) wl << 40) ^ ((uint64_t) t << 42) ^ ((uint64_t) i << 16) ^ ((uint64_t) kind << 4) ^ (uint64_t) persist ^ ((uint64_t) c << 45)) ;
 					run_workload (format, c, wl, t, &base, i, kind, persist) ;
 					vh_stat ("faulted_runs", 1) ;
+					if (vh_thorough && !persist)		/* two single-shot faults: the second of a random kind at 2 later callbacks */
+					{	int z ; for (z = 0 ; z < 6 ; z++)
+						{	g_fault2 = i + 1 + vh_rint ((int) (K - i > 40 ? 40 : K - i + 3)) ; g_kind2 = VF_ZERO + vh_rint (VF_NKINDS - VF_ZERO) ;
+							vh_distinct (vh_fnv (0, &format, 4) ^ ((uint64_t) wl << 40) ^ ((uint64_t) t << 42) ^ ((uint64_t) i << 16) ^ ((uint64_t) kind << 4) ^ ((uint64_t) g_fault2 << 48) ^ ((uint64_t) g_kind2 << 60) ^ ((uint64_t) c << 45)) ;
+							snprintf (vh_case_desc + strlen (vh_case_desc), sizeof (vh_case_desc) - strlen (vh_case_desc), "+%s@%ld", kname [g_kind2], g_fault2) ;
+							alarm (vh_case_secs) ;
+							run_workload (format, c, wl, t, &base, i, kind, 0) ; vh_stat ("double_fault_runs", 1) ;
+							{ char *at2 = strrchr (vh_case_desc, '+') ; if (at2) *at2 = 0 ; }
+							}
+						g_fault2 = 0 ; g_kind2 = 0 ;
+						}
 					}
 				}
 			}
 		if (vh_case ("%s ch=%d descriptor route (ENOSPC, EBADF, EINTR, EIO)", vh_fname (format), c)) { cur_fn = vh_fname (format) ; vh_distinct (vh_fnv (0, &format, 4) ^ 77) ; fd_route (format, c) ; }
 		mv_free (&base) ;
+		}
 		}
 	return vh_finish () ;
 }
